@@ -44,6 +44,9 @@ type Item struct {
 	// AllowParamMutation: translate assignments to elements of slice parameters / fields behind
 	// pointer parameters as local updates although the caller would see them (purefunc only).
 	AllowParamMutation bool `json:"allow_param_mutation"`
+	// NonNilPointers: `p == nil` on a pointer to a struct translates to false: the translation
+	// describes the function on non-nil arguments only (state that where you use it).
+	NonNilPointers bool `json:"nonnil_pointers"`
 }
 
 type Spec struct {
